@@ -1023,4 +1023,337 @@ theorem sortedBelow_length_le (n : Nat) (s : List Nat) : (sortedBelow n s).lengt
     unfold sortedBelow; exact List.length_filter_le _ _
   simpa using this
 
+/-! ### trim_simple_glyph_padding -/
+
+/-- one flag run: the flag byte and how many points it covers -/
+def encRun (r : Nat × Nat) : Bytes := if r.1 &&& 0x08 != 0 then [r.1, r.2 - 1] else [r.1]
+def encRuns (rs : List (Nat × Nat)) : Bytes := rs.flatMap encRun
+def runOk (r : Nat × Nat) : Prop := if r.1 &&& 0x08 != 0 then 1 ≤ r.2 else r.2 = 1
+
+/-- what a non-zero result of the flag walk means -/
+def TrimSpec (numCoords : Nat) (d : Bytes) (i cb cwf k : Nat) : Prop :=
+  ∃ runs : List (Nat × Nat), (∀ r ∈ runs, runOk r) ∧ encRuns runs <+: d ∧
+    cwf + (runs.map (·.2)).sum = numCoords ∧
+    k = i + (encRuns runs).length + cb + (runs.map (fun r => coordSize r.1 * r.2)).sum
+
+theorem trimSpec_nil (numCoords : Nat) (d : Bytes) (i cb : Nat) : TrimSpec numCoords d i cb numCoords (i + cb) :=
+  ⟨[], by simp, by simp [encRuns], by simp, by simp [encRuns]⟩
+
+theorem trimSpec_cons_rep (numCoords f r : Nat) (rest : Bytes) (i cb cwf k : Nat) (hf : (f &&& 0x08 != 0) = true)
+    (h : TrimSpec numCoords rest (i + 2) (cb + coordSize f * (r + 1)) (cwf + (r + 1)) k) :
+    TrimSpec numCoords (f :: r :: rest) i cb cwf k := by
+  obtain ⟨runs, h1, h2, h3, h4⟩ := h
+  refine ⟨(f, r + 1) :: runs, ?_, ?_, ?_, ?_⟩
+  · intro x hx
+    simp at hx
+    rcases hx with rfl | hx
+    · simp [runOk, hf]
+    · exact h1 x hx
+  · obtain ⟨t, ht⟩ := h2
+    refine ⟨t, ?_⟩
+    simp only [encRuns, List.flatMap_cons, encRun, hf, if_true] at ht ⊢
+    simp [← ht]
+  · simp only [List.map_cons, List.sum_cons]; omega
+  · simp only [encRuns, List.flatMap_cons, encRun, hf, if_true, List.map_cons, List.sum_cons,
+      List.length_append, List.length_cons, List.length_nil] at h4 ⊢
+    generalize coordSize f * (r + 1) = q at *
+    omega
+
+theorem trimSpec_cons_one (numCoords f : Nat) (rest : Bytes) (i cb cwf k : Nat) (hf : ¬ (f &&& 0x08 != 0) = true)
+    (h : TrimSpec numCoords rest (i + 1) (cb + coordSize f) (cwf + 1) k) :
+    TrimSpec numCoords (f :: rest) i cb cwf k := by
+  obtain ⟨runs, h1, h2, h3, h4⟩ := h
+  have hf' : (f &&& 0x08 != 0) = false := Bool.eq_false_iff.mpr hf
+  have henc : encRun (f, 1) = [f] := by simp only [encRun, hf', Bool.false_eq_true, if_false]
+  refine ⟨(f, 1) :: runs, ?_, ?_, ?_, ?_⟩
+  · intro x hx
+    simp at hx
+    rcases hx with rfl | hx
+    · simp [runOk, hf']
+    · exact h1 x hx
+  · obtain ⟨t, ht⟩ := h2
+    refine ⟨t, ?_⟩
+    simp only [encRuns, List.flatMap_cons, henc] at ht ⊢
+    simp [← ht]
+  · simp only [List.map_cons, List.sum_cons]; omega
+  · simp only [encRuns, List.flatMap_cons, henc, List.map_cons, List.sum_cons,
+      List.length_append, List.length_cons, List.length_nil, Nat.mul_one] at h4 ⊢
+    omega
+
+theorem trimGo_spec (numCoords : Nat) : ∀ (d : Bytes) (i cb cwf k : Nat),
+    trimGo numCoords d i cb cwf = k → k ≠ 0 → TrimSpec numCoords d i cb cwf k
+  | [], i, cb, cwf, k, h, hne => by
+    simp only [trimGo] at h
+    split at h
+    · exact absurd h.symm hne
+    · rename_i hc
+      have : numCoords = cwf := by simpa using hc
+      subst this; subst h
+      exact trimSpec_nil _ _ _ _
+  | [f], i, cb, cwf, k, h, hne => by
+    simp only [trimGo] at h
+    split at h
+    · exact absurd h.symm hne
+    · rename_i hf
+      split at h
+      · exact absurd h.symm hne
+      · rename_i hc
+        have hc' : numCoords = cwf + 1 := by simpa using hc
+        apply trimSpec_cons_one _ _ _ _ _ _ _ hf
+        have := trimSpec_nil numCoords [] (i + 1) (cb + coordSize f)
+        rw [← hc']
+        have e : k = i + 1 + (cb + coordSize f) := by omega
+        rw [e]; exact this
+  | f :: r :: rest, i, cb, cwf, k, h, hne => by
+    simp only [trimGo] at h
+    split at h
+    · rename_i hf
+      split at h
+      · split at h
+        · exact absurd h.symm hne
+        · rename_i _ hc
+          have hc' : numCoords = cwf + (r + 1) := by simpa using hc
+          apply trimSpec_cons_rep _ _ _ _ _ _ _ _ hf
+          have := trimSpec_nil numCoords rest (i + 2) (cb + coordSize f * (r + 1))
+          rw [← hc']
+          have e : k = i + 2 + (cb + coordSize f * (r + 1)) := by
+            generalize coordSize f * (r + 1) = q at *; omega
+          rw [e]; exact this
+      · exact trimSpec_cons_rep _ _ _ _ _ _ _ _ hf (trimGo_spec numCoords rest _ _ _ k h hne)
+    · rename_i hf
+      split at h
+      · split at h
+        · exact absurd h.symm hne
+        · rename_i _ hc
+          have hc' : numCoords = cwf + 1 := by simpa using hc
+          apply trimSpec_cons_one _ _ _ _ _ _ _ hf
+          have := trimSpec_nil numCoords (r :: rest) (i + 1) (cb + coordSize f)
+          rw [← hc']
+          have e : k = i + 1 + (cb + coordSize f) := by omega
+          rw [e]; exact this
+      · exact trimSpec_cons_one _ _ _ _ _ _ _ hf (trimGo_spec numCoords (r :: rest) _ _ _ k h hne)
+
+/-! ### subset_composite_glyph -/
+
+/-- byte length of the component record whose (truncated) flag word is `f` -/
+def compRecSize (f : Nat) : Nat :=
+  4 + (if f &&& 0x0001 != 0 then 4 else 2) +
+  (if f &&& 0x0008 != 0 then 2 else if f &&& 0x0040 != 0 then 4 else if f &&& 0x0080 != 0 then 8 else 0)
+
+/-- the component glyph ids of a composite record, walking the records the way the subsetter (and
+read-fonts) does; `none` when a record header does not fit -/
+def compIds (d : Bytes) (len : Nat) : Nat → Nat → Option (List Nat)
+  | 0, _ => none
+  | fuel + 1, i =>
+    if i + 3 ≥ len then none else
+    let f := u16At d i &&& COMPOSITE_KNOWN_BITS
+    let rest := if f &&& 0x0020 != 0 then compIds d len fuel (i + compRecSize f) else some []
+    rest.map (u16At d (i + 2) :: ·)
+
+theorem compFlags_bit (flags i x m : Nat) (hm : 0x1EEF &&& m = m ∧ 0x0400 &&& m = 0) :
+    compFlags flags i (x &&& COMPOSITE_KNOWN_BITS) &&& m = (x &&& COMPOSITE_KNOWN_BITS) &&& m := by
+  unfold compFlags
+  simp only
+  split <;> split <;> simp only [Nat.and_or_distrib_right, Nat.and_assoc, hm.1, hm.2, Nat.or_zero]
+
+theorem compFlags_known (flags i x : Nat) :
+    compFlags flags i (x &&& COMPOSITE_KNOWN_BITS) &&& COMPOSITE_KNOWN_BITS = compFlags flags i (x &&& COMPOSITE_KNOWN_BITS) := by
+  unfold compFlags COMPOSITE_KNOWN_BITS
+  simp only
+  have e1 : (0x1FEF : Nat) &&& 0x1FEF = 0x1FEF := rfl
+  have e2 : (0x1EEF : Nat) &&& 0x1FEF = 0x1EEF := rfl
+  have e3 : (0x0400 : Nat) &&& 0x1FEF = 0x0400 := rfl
+  split <;> split <;> simp only [Nat.and_or_distrib_right, Nat.and_assoc, e1, e2, e3]
+
+theorem compFlags_lt (flags i x : Nat) : compFlags flags i (x &&& COMPOSITE_KNOWN_BITS) < 65536 := by
+  have h := compFlags_known flags i x
+  have : compFlags flags i (x &&& COMPOSITE_KNOWN_BITS) &&& COMPOSITE_KNOWN_BITS ≤ COMPOSITE_KNOWN_BITS := Nat.and_le_right
+  rw [h] at this
+  have hk : COMPOSITE_KNOWN_BITS = 8175 := rfl
+  omega
+
+theorem compRecSize_compFlags (flags i x : Nat) :
+    compRecSize (compFlags flags i (x &&& COMPOSITE_KNOWN_BITS)) = compRecSize (x &&& COMPOSITE_KNOWN_BITS) := by
+  unfold compRecSize
+  rw [compFlags_bit flags i x 0x0001 ⟨rfl, rfl⟩, compFlags_bit flags i x 0x0008 ⟨rfl, rfl⟩,
+      compFlags_bit flags i x 0x0040 ⟨rfl, rfl⟩, compFlags_bit flags i x 0x0080 ⟨rfl, rfl⟩]
+
+
+/-! list helpers -/
+
+theorem getD_set_ne (l : Bytes) (i j a : Nat) (h : i ≠ j) : (l.set i a).getD j 0 = l.getD j 0 := by
+  simp [List.getD_eq_getElem?_getD, List.getElem?_set, h]
+
+theorem getD_set_eq (l : Bytes) (i a : Nat) (h : i < l.length) : (l.set i a).getD i 0 = a := by
+  simp [List.getD_eq_getElem?_getD, List.getElem?_set, h]
+
+theorem putU16_length (l : Bytes) (i v : Nat) : (putU16 l i v).length = l.length := by
+  simp [putU16]
+
+theorem putU16_getD_ne (l : Bytes) (i v j : Nat) (h1 : j ≠ i) (h2 : j ≠ i + 1) :
+    (putU16 l i v).getD j 0 = l.getD j 0 := by
+  unfold putU16
+  rw [getD_set_ne _ _ _ _ (by omega), getD_set_ne _ _ _ _ (by omega)]
+
+theorem putU16_read (l : Bytes) (i v : Nat) (hv : v < 65536) (hi : i + 1 < l.length) :
+    u16At (putU16 l i v) i = v := by
+  unfold u16At putU16
+  rw [getD_set_ne _ _ _ _ (by omega), getD_set_eq _ _ _ (by omega),
+      getD_set_eq _ _ _ (by simp; omega)]
+  omega
+
+theorem u16At_congr (a b : Bytes) (i : Nat) (h0 : a.getD i 0 = b.getD i 0) (h1 : a.getD (i + 1) 0 = b.getD (i + 1) 0) :
+    u16At a i = u16At b i := by
+  unfold u16At; rw [h0, h1]
+
+theorem compWriteFlags_cases (flags i f0 : Nat) (out : Bytes) :
+    compWriteFlags flags i f0 out = out ∧ compFlags flags i f0 = f0 ∨
+    compWriteFlags flags i f0 out = putU16 out i (compFlags flags i f0) ∨
+    compWriteFlags flags i f0 out = putU16 (putU16 out i (f0 &&& 0x1EEF)) i (compFlags flags i f0) := by
+  by_cases hA : (f0 &&& 0x0100 != 0) ∧ hasFlag flags F_NO_HINTING
+  · by_cases hB : hasFlag flags F_SET_OVERLAPS ∧ i = 10
+    · right; right
+      simp only [compWriteFlags, hA, hB, and_self, if_true]
+    · right; left
+      simp only [compWriteFlags, compFlags, hA, hB, and_self, if_true, if_false]
+  · by_cases hB : hasFlag flags F_SET_OVERLAPS ∧ i = 10
+    · right; left
+      simp only [compWriteFlags, hA, hB, and_self, if_true, if_false]
+    · left
+      simp only [compWriteFlags, compFlags, hA, hB, if_false, and_self]
+
+theorem compWriteFlags_length (flags i f0 : Nat) (out : Bytes) :
+    (compWriteFlags flags i f0 out).length = out.length := by
+  rcases compWriteFlags_cases flags i f0 out with ⟨h, _⟩ | h | h <;> rw [h] <;> simp [putU16_length]
+
+theorem compWriteFlags_getD_ne (flags i f0 : Nat) (out : Bytes) (j : Nat) (h1 : j ≠ i) (h2 : j ≠ i + 1) :
+    (compWriteFlags flags i f0 out).getD j 0 = out.getD j 0 := by
+  rcases compWriteFlags_cases flags i f0 out with ⟨h, _⟩ | h | h <;> rw [h]
+  · rw [putU16_getD_ne _ _ _ _ h1 h2]
+  · rw [putU16_getD_ne _ _ _ _ h1 h2, putU16_getD_ne _ _ _ _ h1 h2]
+
+/-- reading the flag word back (truncated) gives the local `flags` value of the round -/
+theorem compWriteFlags_read (flags i : Nat) (out : Bytes) (hi : i + 1 < out.length) :
+    u16At (compWriteFlags flags i (u16At out i &&& COMPOSITE_KNOWN_BITS) out) i &&& COMPOSITE_KNOWN_BITS =
+      compFlags flags i (u16At out i &&& COMPOSITE_KNOWN_BITS) := by
+  have hlt := compFlags_lt flags i (u16At out i)
+  have hk := compFlags_known flags i (u16At out i)
+  rcases compWriteFlags_cases flags i (u16At out i &&& COMPOSITE_KNOWN_BITS) out with ⟨h, h'⟩ | h | h <;> rw [h]
+  · rw [h']
+  · rw [putU16_read _ _ _ hlt hi, hk]
+  · rw [putU16_read _ _ _ hlt (by rw [putU16_length]; exact hi), hk]
+
+theorem compIds_congr (len : Nat) : ∀ (fuel : Nat) (a b : Bytes) (i : Nat),
+    (∀ j, i ≤ j → a.getD j 0 = b.getD j 0) → compIds a len fuel i = compIds b len fuel i := by
+  intro fuel
+  induction fuel with
+  | zero => intro a b i _; rfl
+  | succ n ih =>
+    intro a b i h
+    unfold compIds
+    have e0 : u16At a i = u16At b i := u16At_congr a b i (h i (Nat.le_refl _)) (h (i + 1) (by omega))
+    have e2 : u16At a (i + 2) = u16At b (i + 2) := u16At_congr a b (i + 2) (h _ (by omega)) (h _ (by omega))
+    rw [e0, e2]
+    split
+    · rfl
+    · simp only
+      rw [ih a b _ (fun j hj => h j (by omega))]
+
+/-- **one walk, two readings.** Whenever the rewrite loop succeeds from offset `i`, the input record
+has a well-formed component list from `i`, every component glyph has an image under the glyph map,
+and re-reading the output from `i` gives exactly the images (as u16), record for record; the output
+has the input's length and is untouched below `i`. -/
+theorem compLoop_spec (flags : Nat) (gmap : Nat → Option Nat) (len : Nat) :
+    ∀ (fuel : Nat) (out : Bytes) (i : Nat) (whi : Bool) (res : Bytes × Nat × Bool),
+      len ≤ out.length → compLoop flags gmap len fuel out i whi = some res →
+      res.1.length = out.length ∧ (∀ j, j < i → res.1.getD j 0 = out.getD j 0) ∧
+      ∃ ids news, compIds out len fuel i = some ids ∧ ids.mapM gmap = some news ∧
+        compIds res.1 len fuel i = some (news.map (· % 65536)) := by
+  intro fuel
+  induction fuel with
+  | zero => intro out i whi res _ h; simp [compLoop] at h
+  | succ n ih =>
+    intro out i whi res hlen h
+    unfold compLoop at h
+    split at h
+    · cases h
+    · rename_i hbound
+      simp only at h
+      have hi1 : i + 1 < out.length := by omega
+      generalize hf0 : u16At out i &&& COMPOSITE_KNOWN_BITS = f0 at h
+      generalize hout2 : compWriteFlags flags i f0 out = out2 at h
+      have hlen2 : out2.length = out.length := by rw [← hout2]; exact compWriteFlags_length _ _ _ _
+      have hgid : u16At out2 (i + 2) = u16At out (i + 2) := by
+        rw [← hout2]
+        exact u16At_congr _ _ _ (compWriteFlags_getD_ne _ _ _ _ _ (by omega) (by omega))
+          (compWriteFlags_getD_ne _ _ _ _ _ (by omega) (by omega))
+      have hread : u16At out2 i &&& COMPOSITE_KNOWN_BITS = compFlags flags i f0 := by
+        rw [← hout2, ← hf0]; exact compWriteFlags_read flags i out hi1
+      split at h
+      · cases h
+      · rename_i new hnew
+        rw [hgid] at hnew
+        generalize hout3 : putU16 out2 (i + 2) (new % 65536) = out3 at h
+        have hlen3 : out3.length = out.length := by rw [← hout3, putU16_length, hlen2]
+        have hread3 : u16At out3 i &&& COMPOSITE_KNOWN_BITS = compFlags flags i f0 := by
+          have e : u16At out3 i = u16At out2 i := by
+            rw [← hout3]
+            exact u16At_congr _ _ _ (putU16_getD_ne _ _ _ _ (by omega) (by omega))
+              (putU16_getD_ne _ _ _ _ (by omega) (by omega))
+          rw [e]; exact hread
+        have hgid3 : u16At out3 (i + 2) = new % 65536 := by
+          rw [← hout3]; exact putU16_read _ _ _ (Nat.mod_lt _ (by omega)) (by omega)
+        have hbelow3 : ∀ j, j < i → out3.getD j 0 = out.getD j 0 := by
+          intro j hj
+          rw [← hout3, putU16_getD_ne _ _ _ _ (by omega) (by omega), ← hout2,
+            compWriteFlags_getD_ne _ _ _ _ _ (by omega) (by omega)]
+        have hsize : compRecSize (compFlags flags i f0) = compRecSize f0 := by
+          rw [← hf0]; exact compRecSize_compFlags flags i (u16At out i)
+        have hmore : compFlags flags i f0 &&& 0x0020 = f0 &&& 0x0020 := by
+          rw [← hf0]; exact compFlags_bit flags i (u16At out i) 0x0020 ⟨rfl, rfl⟩
+        -- the next offset, as `compRecSize`
+        have hnext : i + 4 + (if compFlags flags i f0 &&& 0x0001 != 0 then 4 else 2) +
+            (if compFlags flags i f0 &&& 0x0008 != 0 then 2 else if compFlags flags i f0 &&& 0x0040 != 0 then 4
+              else if compFlags flags i f0 &&& 0x0080 != 0 then 8 else 0) = i + compRecSize f0 := by
+          rw [← hsize]; unfold compRecSize; omega
+        rw [hnext] at h
+        have hsz : 6 ≤ compRecSize f0 := by unfold compRecSize; split <;> omega
+        -- bytes from the next offset on agree between out and out3
+        have hagree : ∀ j, i + compRecSize f0 ≤ j → out.getD j 0 = out3.getD j 0 := by
+          intro j hj
+          rw [← hout3, putU16_getD_ne _ _ _ _ (by omega) (by omega), ← hout2,
+            compWriteFlags_getD_ne _ _ _ _ _ (by omega) (by omega)]
+        split at h
+        · -- more components
+          rename_i hm
+          obtain ⟨r1, r2, ids, news, r3, r4, r5⟩ := ih out3 _ _ res (by omega) h
+          refine ⟨by omega, fun j hj => by rw [r2 j (by omega)]; exact hbelow3 j hj, ?_⟩
+          refine ⟨u16At out (i + 2) :: ids, new :: news, ?_, ?_, ?_⟩
+          · unfold compIds
+            simp only [hbound, if_false, hf0]
+            have : (f0 &&& 0x0020 != 0) = true := by rw [← hmore]; exact hm
+            simp only [this, if_true]
+            rw [compIds_congr len n out out3 _ hagree, r3]; rfl
+          · rw [List.mapM_cons, hnew, r4]; rfl
+          · unfold compIds
+            simp only [hbound, if_false]
+            have hr0 : u16At res.1 i = u16At out3 i :=
+              u16At_congr _ _ _ (r2 i (by omega)) (r2 (i + 1) (by omega))
+            have hr2 : u16At res.1 (i + 2) = u16At out3 (i + 2) :=
+              u16At_congr _ _ _ (r2 (i + 2) (by omega)) (r2 (i + 3) (by omega))
+            rw [hr0, hr2, hread3, hgid3, hsize]
+            simp only [hm, if_true]
+            rw [r5]; rfl
+        · -- last component
+          rename_i hm
+          simp only [Option.some.injEq] at h
+          subst h
+          refine ⟨hlen3, hbelow3, [u16At out (i + 2)], [new], ?_, ?_, ?_⟩
+          · unfold compIds
+            simp only [hbound, if_false, hf0]
+            have : ¬ (f0 &&& 0x0020 != 0) = true := by rw [← hmore]; exact hm
+            simp only [this, if_false]; rfl
+          · rw [List.mapM_cons, hnew]; rfl
+          · unfold compIds
+            simp only [hbound, if_false, hread3, hgid3, hm]; rfl
 end FontVerif.Subset
